@@ -4,8 +4,9 @@ contract monitor composed in)."""
 ACTIONS = ['Arrive', 'Answer', 'DoForget', 'AsmTake', 'AsmTimeout', 'BatchStart', 'DoYield', 'DoEnd', 'Tick']
 
 PLAN = {
-    'C04': {'quick': [('B_aab_r0', None), ('B_abc_c2', None), ('W_NeverTwoBatches', 'NeverTwoBatches')],
-            'thorough': [('B_aab_r0', None), ('B_abc_c2', None), ('B_aab_r3', None), ('W_NeverTwoBatches', 'NeverTwoBatches')]},
+    'C04': {'quick': [('B_aab_r0', None), ('B_abc_c2', None), ('B_abc_misbehave_q', None), ('W_NeverTwoBatches', 'NeverTwoBatches')],
+            'thorough': [('B_aab_r0', None), ('B_abc_c2', None), ('B_aab_r3', None), ('B_abc_misbehave', None),
+                         ('W_NeverTwoBatches', 'NeverTwoBatches')]},
     'C09': {'quick': [('B_aab_cancel', None), ('W_D4', 'Inv_C09')],
             'thorough': [('B_aab_cancel', None), ('B_aab_r0', None), ('W_D4', 'Inv_C09')]},
     'C10': {'quick': [('B_abc_c2', None), ('W_NeverFull', 'NeverFull'), ('W_NeverTwoBatches', 'NeverTwoBatches')],
@@ -35,13 +36,11 @@ UNIT = 500      # ms per model tick (scenario times are multiples of 0.5 s)
 
 
 def _prep(sc, r):
-    if sc.get('form', 'class') != 'class' or sc.get('setmax') or sc.get('raise_at') or sc.get('loops'):
+    if sc.get('form', 'class') != 'class' or sc.get('setmax') or sc.get('loops'):
         return None
     if any(c.get('chain') or c.get('tmo') is not None or c.get('cancel_iters') is not None for c in sc['calls']):
         return None
     behav = sc.get('behav', {})
-    if any(b in ('dup', 'unknown') for b in behav.values()):
-        return None
     o = sc['opts']
     for k in ('batch_timeout', 'retention_timeout'):
         if (o.get(k, 0) * 1000) % UNIT:
@@ -73,7 +72,9 @@ def _prep(sc, r):
                        'BT': int(o['batch_timeout'] * 1000) // UNIT, 'RT': int(o.get('retention_timeout', 0) * 1000) // UNIT,
                        'MaxTime': max(e['t'] for e in ev),     # the model's horizon must cover the whole recorded run
                        'Cancels': any(e['e'] == 'Cancel' for e in ev)},
-            'behav': {k: behav.get(k, 'value') for k in keys}}
+            # a key answered twice was answered once first; a key replaced by an unknown one is never answered
+            'behav': {k: {'dup': 'value', 'unknown': 'omit'}.get(behav.get(k, 'value'), behav.get(k, 'value')) for k in keys},
+            'wild': bool(sc.get('raise_at')) or any(b in ('dup', 'unknown') for b in behav.values())}
 
 
 def _one(p):
@@ -84,8 +85,9 @@ def _one(p):
     mod = ('---- MODULE MC_BatcherConform ----\nEXTENDS BatcherConform\nCCalls == 1..%d\nCKeyOf == %s\nCBehav == %s\n====\n'
            % (len(p['keyof']), keyof, behav))
     cfg = ('INIT CInit\nNEXT CNext\nCONSTANTS\n Calls <- CCalls\n KeyOf <- CKeyOf\n MaxB = %d\n MaxC = %d\n BT = %d\n RT = %d\n MaxTime = %d\n'
-           ' Behav <- CBehav\n Cancels = %s\n Raises = FALSE\n ShieldShared = TRUE\nCONSTRAINT Reached\nCONSTRAINT NotYetAccepted\nCHECK_DEADLOCK FALSE\n'
-           % (c['MaxB'], c['MaxC'], c['BT'], c['RT'], c['MaxTime'], 'TRUE' if c['Cancels'] else 'FALSE'))
+           ' Behav <- CBehav\n Cancels = %s\n Raises = %s\n Misbehaves = %s\n ShieldShared = TRUE\nCONSTRAINT Reached\nCONSTRAINT NotYetAccepted\nCHECK_DEADLOCK FALSE\n'
+           % (c['MaxB'], c['MaxC'], c['BT'], c['RT'], c['MaxTime'], 'TRUE' if c['Cancels'] else 'FALSE',
+              'TRUE' if p.get('wild') else 'FALSE', 'TRUE' if p.get('wild') else 'FALSE'))
     work = tlc.scratch('bconf-')
     try:
         tf = _os.path.join(work, 'trace.json')
@@ -113,8 +115,12 @@ def conformance(ctx, executed, limit=40):
         p = _prep(sc, r)
         if p is not None and len(p['events']) <= 60:
             todo.append(p)
+    # a third of the sample: batch functions that raise / yield keys they were not given or answered already
     todo.sort(key=lambda p: len(p['events']))
-    todo = todo[:limit]
+    a = [p for p in todo if p.get('wild')]
+    b = [p for p in todo if not p.get('wild')]
+    na = min(len(a), max(limit // 3, limit - len(b)))
+    todo = a[:na] + b[:limit - na]
     acc = und = 0
     drift = []
     with _TPE(8) as ex:
@@ -132,7 +138,7 @@ def conformance(ctx, executed, limit=40):
                 drift.append({'matched_prefix': best - 1, 'of': n - 1, 'first_unexplained': p['events'][best - 1]})
     ctx.cov['conformance'] = {'traces_checked': len(todo), 'accepted': acc, 'drift': len(drift), 'undecided': und,
                               'drift_samples': drift[:3],
-                              'what': 'recorded executions (class form) validated against the timed model Batcher.tla with silent assembler / '
+                              'what': 'recorded executions (class form; incl. batch functions that raise or misbehave) validated against the timed model Batcher.tla with silent assembler / '
                                       'clean-up / clock steps; projected state (queue length, retention-cache keys, free semaphore slots) '
                                       'compared at every observable event'}
     ctx.cov['conformance_divergences'] = len(drift)
